@@ -438,13 +438,14 @@ package raft
 //@ ghost func cfgIdxAt(uint64) uint64
 //@ ghost var greqCommit uint64
 
+//@ ghost var gwfail bool
 //@ func doTakeSnapshot params(fsm, index, config)
 //@   props C12 C09
 //@   requires [PA-ch.snap-reply] gwaitSnap
 //@   requires fsm.snaps != nil && fsm.snaps.used != nil && fsm.snaps.retain >= 1
 //@   requires PubInv(fsm.snaps.dir) && AllBelow(fsm.snaps)
 //@   requires [PA.request-config] config.Index == cfgIdxAt(greqCommit)
-//@   modifies sortgen, fs, fdone, fsize, lIdx, lTerm, lCfgIdx, lCfgTerm, lSize, fsm.snaps.index, fsm.snaps.term
+//@   modifies sortgen, fs, fdone, fsize, lIdx, lTerm, lCfgIdx, lCfgTerm, lSize, fsm.snaps.index, fsm.snaps.term, gwfail
 //@   ensures [C12.index-term] result1 == nil ==> result0.index == gsnapIdx && result0.term == gsnapTerm
 //@   ensures [C12.config-as-requested] result1 == nil ==> result0.config == config
 //@   ensures [C12.membership] result1 == nil ==> result0.config.Index == cfgIdxAt(result0.index)
@@ -453,6 +454,12 @@ package raft
 //@   ensures [C10.snapshot-publish] PubInv(fsm.snaps.dir)
 //@   ensures [C19.snapshot-index-monotone] fsm.snaps.index >= old(fsm.snaps.index)
 //@   ensures [C09.failure-keeps-latest] result1 != nil ==> fsm.snaps.index == old(fsm.snaps.index) && fsm.snaps.term == old(fsm.snaps.term)
+// a snapshot whose data could not be written completely (Persist or the final Flush failed) is never published:
+// gwfail records the failure at the two calls, whatever the code does with the error values afterwards
+//@   requires !gwfail
+//@   ghostcode after call Persist 1: gwfail := result0 != nil
+//@   ghostcode after call Flush 1: gwfail := gwfail || result0 != nil
+//@   ensures [C09+C10.failed-write-not-published] gwfail ==> result1 != nil
 // (dropped: an OpError built from the nil `err` instead of `doneErr` -- D13 -- only arises after a storage error, which is outside the premise of C15; noted in DESIGN.md)
 
 // The goroutine started here is not executed by the engine (T-go): the arguments it receives
